@@ -74,13 +74,16 @@ class TextScenario(Scenario):
             rf = open(path, "r", encoding="utf-8", newline="")
             self.rfile = rf
             fileobj = rf
+            if p.get("kind") == "bypath":
+                fileobj = path            # the source is given the path and opens the file itself
         else:
             self.mem = MemFile(self, pre)
             fileobj = self.mem
         self.pre = pre
         self.source = Stream.from_textfile(fileobj, poll_interval=POLL, delimiter=self.delim,
                                            from_end=p.get("from_end", False), loop=self.ioloop, asynchronous=True)
-        self.source.sink(self.make_sink_fn(p.get("kind") or "sync", "S"))
+        kind = p.get("kind") or "sync"
+        self.source.sink(self.make_sink_fn("sync" if kind == "bypath" else kind, "S"))
         self.source.start()
         self.chunks = list(p["chunks"])
 
@@ -284,6 +287,12 @@ class DirScenario(Scenario):
 
     def _create(self):
         f = self.to_create.pop(0)
+        if f.startswith("-"):
+            # the file goes away (and may come back later under the same name): it has been emitted, it stays emitted
+            self.present.remove(f[1:])
+            self.ever = getattr(self, "ever", set()) | {f[1:]}
+            self.log.append(("delete", "dir", self.loop.time(), self._rel(f[1:])))
+            return
         self.present.append(f)
         self.log.append(("create", "dir", self.loop.time(), self._rel(f)))
 
@@ -311,7 +320,9 @@ class DirScenario(Scenario):
             clause = "unsorted-poll" if sorted(got) == sorted(want[:len(got)]) else "order"
             return Violation(clause, "filenames", "", dict(info, want=want))
         if final:
-            if sorted(got) != sorted(self._rel(x) for x in self.present):
+            seen_by_glob = set(x for e in self.log if e[0] == "glob" for x in e[3])
+            must = set(self._rel(x) for x in self.present) | (seen_by_glob & set(self._rel(x) for x in getattr(self, "ever", ())))
+            if set(got) != must:
                 return Violation("loss", "filenames", "", dict(info, present=[self._rel(x) for x in self.present]))
         return None
 
@@ -417,6 +428,24 @@ def plan(ctx):
     for delim in ("\n", "ab"):
         jobs.append((("text", delim, ("x" + delim + "y" + delim + "z" + delim,), False, "", False, 2, 2, "future"), 1))
         jobs.append((("text", delim, ("x" + delim + "y" + delim, "z" + delim), False, "", False, 2, 1, "future"), 1))
+    # four and more records in one read; a three-character delimiter cut 2|1 and 1|2; a record longer than any buffer
+    for delim in ("\n", "ab", "abc"):
+        jobs.append((("text", delim, (("x" + delim) * 5,), False, "", False, 1), 0))
+        jobs.append((("text", delim, (("x" + delim) * 2, ("y" + delim) * 4), False, "", False, 2), 0))
+    for txt in ("xabc", "xabcyabc", "abcabc", "xabcab"):
+        for chunks in compositions(txt):
+            if 2 <= len(chunks) <= 3:
+                jobs.append((("text", "abc", chunks, False, "", False, 2), 0))
+    jobs.append((("text", "\n", ("x" * 5000, "y" * 5000, "\n", "z\n"), False, "", False, 3), 0))
+    jobs.append((("text", "\n", ("x" * 9000, "\n"), False, "", True, 2), 0))
+    # the source is given a path (and opens the file itself): what is already in the file counts
+    jobs.append((("text", "\n", ("x\n", "y"), False, "p\nq\n", True, 2, 0, "bypath"), 0))
+    jobs.append((("text", "\n", ("x\n",), True, "p\n", True, 2, 0, "bypath"), 0))
+    # file names of mixed case (plain string order); a file that goes away and comes back
+    for create in itertools.permutations(("/fake/B.csv", "/fake/a.csv", "/fake/C.csv")):
+        jobs.append((("dir", (), create, (0, 1), "sync"), 0))
+    jobs.append((("dir", ("/fake/a.csv",), ("-/fake/a.csv", "/fake/a.csv", "/fake/b.csv"), (0, 1), "sync"), 0))
+    jobs.append((("dir", (), ("/fake/a.csv", "-/fake/a.csv", "/fake/b.csv", "/fake/a.csv"), (1, 0), "sync"), 0))
     # delimiters that overlap themselves ('aa', a blank line): every string over {x, delimiter character} up to length 5
     # that contains the delimiter, cut everywhere (runs of delimiter characters longer than the delimiter, read boundaries
     # inside and right after such runs)
